@@ -180,6 +180,10 @@ def run(ctx):
     jobs += [("CCNOT", (t,)) for t in (0, 1, 2)]
     for a0, a1, b0, b1 in permutations(range(6), 4):
         jobs.append(("SWAP", ((a0, a1), (b0, b1))))
+    # SWAP between far-apart qubits in wide registers (the gate spans max(mode)+1 modes, the other modes stay put)
+    for top in (6, 7, 9, 12, 15, 16, 17, 18, 24, 31, 32, 33, 40, 63, 64, 65):
+        jobs += [("SWAP", ((0, 1), (top - 1, top))), ("SWAP", ((top, top - 1), (1, 0))), ("SWAP", ((top - 2, 0), (top, 1))),
+                 ("SWAP", ((top // 2, top), (0, top // 2 - 1)))]
     for i, (name, args) in enumerate(jobs):
         if i % ctx.nshards != ctx.shard:
             continue
@@ -193,6 +197,12 @@ def run(ctx):
         ctx.bucket("second_pass_shuffled")
     # sampled continuum
     while not ctx.out_of_time():
+        if rng.random() < 0.15:
+            width = int(rng.choice([5, 8, 12, 17, 20, 30, 48]))
+            a0, a1, b0, b1 = (int(x) for x in rng.choice(width, size=4, replace=False))
+            run_job(ctx, q, "SWAP", ((a0, a1), (b0, b1)))
+            ctx.bucket("swap_in_wide_register")
+            continue
         name = str(rng.choice(ROT))
         th = float(rng.choice([rng.uniform(-4 * math.pi, 4 * math.pi), rng.normal() * 1e-3, rng.uniform(-100, 100)]))
         run_job(ctx, q, name, (th,))
